@@ -466,6 +466,11 @@ func (b *BaseStore) Load(ctx context.Context, amount int) error {
 		amount = *b.options.MaxHistory
 	}
 
+	// a non-positive limit means "load everything"
+	if amount <= 0 {
+		amount = -1
+	}
+
 	var localHeads, remoteHeads []*entry.Entry
 	localHeadsBytes, err := b.Cache().Get(ctx, datastore.NewKey("_localHeads"))
 	if err != nil && err != datastore.ErrNotFound {
@@ -576,7 +581,7 @@ func (b *BaseStore) Load(ctx context.Context, amount int) error {
 			span.AddEvent("store-head-loaded")
 
 			span.AddEvent("store-heads-joining")
-			if _, inErr = oplog.Join(l, amount); inErr != nil {
+			if inErr = joinTrimmed(oplog, l, amount); inErr != nil {
 				span.AddEvent("store-heads-joining-failed")
 				// err = fmt.Errorf("unable to join log: %w", err)
 				// TODO: log
@@ -606,6 +611,24 @@ func (b *BaseStore) Load(ctx context.Context, amount int) error {
 
 	if err := b.emitters.evtReady.Emit(stores.NewEventReady(b.Address(), b.OpLog().Heads().Slice())); err != nil {
 		return fmt.Errorf("unable to emit event ready: %w", err)
+	}
+
+	return nil
+}
+
+// joinTrimmed joins l into oplog and, when a positive amount is given, trims
+// the result to its amount most recent entries.  ipfs-log's Join slices
+// values[len-size:] unconditionally, so a size larger than the joined log must
+// never be passed to it.
+func joinTrimmed(oplog ipfslog.Log, l ipfslog.Log, amount int) error {
+	if _, err := oplog.Join(l, -1); err != nil {
+		return err
+	}
+
+	if amount > 0 && oplog.Len() > amount {
+		if _, err := oplog.Join(l, amount); err != nil {
+			return err
+		}
 	}
 
 	return nil
